@@ -14,6 +14,8 @@ CLAIM = (
     "main.execute reads the errors, reports them and returns 1 (ERR1, ERR4)."
     " SKIPS: the verification / resolution loops in scope have no more `continue`, `break` or in-loop `return` statements than the reference "
     "read on the unchanged tree (baselines/skips.json): a new skip means elements that were examined are no longer examined."
+    " ASCII-RE: IMPLEMENTATION_KEY_RE, parsed with the regex parser of the standard library, contains no Unicode-aware category, no `.`, no "
+    "negated class and no bound above U+007F."
 )
 NOTE = (
     "Trusted base: pathlib semantics of glob/relative_to/as_posix. Not decided: OS-level behaviours (special files, permissions, "
@@ -192,3 +194,6 @@ def run(ctx) -> None:
         if _m.name == "aas_core_codegen.specific_implementations":
             for _f in _m.functions.values():
                 _skips.check_skips(ctx, _f, "SKIPS", _base)
+    ctx.rule("ASCII-RE", "the regular expression of implementation keys admits ASCII names only", floor=1)
+    from ..rules import asciire as _asciire
+    _asciire.check_ascii_regex(ctx, "ASCII-RE", "specific_implementations", "IMPLEMENTATION_KEY_RE", "a snippet whose path has another character must be reported as an invalid key, not loaded")
